@@ -7,7 +7,7 @@ From Coq Require Import List ZArith QArith Qround Bool Lqa.
 Import ListNotations.
 Require Import DH.C09_Transforms.Dims DH.C09_Transforms.Model DH.C09_Transforms.Check
                DH.C09_Transforms.LemmasExact DH.C09_Transforms.LemmasRobust DH.C09_Transforms.LemmasMember
-               DH.C09_Transforms.LemmasSpec.
+               DH.C09_Transforms.LemmasSpec DH.C09_Transforms.LemmasSwitch.
 Open Scope Q_scope.
 
 (* the algebraic law: exact arithmetic (R x == x), pw inverse to lg, lg strictly monotone: for every space, every
@@ -107,6 +107,37 @@ Theorem C09_model_meets_spec : forall R lg pw sp tols X,
 Proof. exact model_meets_spec. Qed.
 Print Assumptions C09_model_meets_spec.
 
+(* ---------- one Space object used many times ---------- *)
+(* transform and inverse_transform are row-by-row maps: no dependence between rows, nothing carried from one call to the
+   next; the same rows in another order / in two batches give the same rows *)
+Theorem C09_rowwise : forall R lg pw sp X Y,
+  transform R lg sp (X ++ Y) = transform R lg sp X ++ transform R lg sp Y
+  /\ transform R lg sp (rev X) = rev (transform R lg sp X)
+  /\ inverse R lg pw sp (X ++ Y) = inverse R lg pw sp X ++ inverse R lg pw sp Y
+  /\ inverse R lg pw sp (rev X) = rev (inverse R lg pw sp X).
+Proof.
+  intros. repeat split; [apply transform_app| apply transform_rev| apply inverse_app| apply inverse_rev].
+Qed.
+Print Assumptions C09_rowwise.
+
+(* switching transformers (Space.set_transformer with a string or a list, Dimension.set_transformer,
+   normalize_dimensions, set_transformer_by_type - any sequence) never changes which points belong to the space *)
+Theorem C09_switch_membership_invariant : forall sp ops row, in_space (run_switches sp ops) row = in_space sp row.
+Proof. exact switch_membership_invariant. Qed.
+Print Assumptions C09_switch_membership_invariant.
+
+(* ... and after ANY sequence of switches the laws hold for the configuration the space has now *)
+Theorem C09_switch_sequence : forall R lg pw sp ops X,
+  let sp' := run_switches sp ops in
+  wf_space sp' = true -> Forall (fun row => in_space sp row = true) X ->
+  (exact_oracles R lg pw -> rows_eq (inverse R lg pw sp' (transform R lg sp' X)) X)
+  /\ Forall (fun row => in_space sp row = true) (inverse R lg pw sp' (transform R lg sp' X))
+  /\ length (transform R lg sp' X) = length X
+  /\ Forall (fun r => length r = tdims sp') (transform R lg sp' X)
+  /\ (mono_oracles R lg -> Forall (fun r => Forall2 in_b r (tbounds_space R lg sp')) (transform R lg sp' X)).
+Proof. exact switch_sequence. Qed.
+Print Assumptions C09_switch_sequence.
+
 (* ---------- non-vacuity ---------- *)
 (* the oracle hypotheses are satisfiable over Q: an affine "logarithm" and its inverse; Qred as the exact rounding *)
 Definition lg1 (x : Q) : Q := x - 1.
@@ -157,4 +188,12 @@ Example C09_example :
   /\ tdims ex_space = 12%nat
   /\ ok_C09 ex_space (tbounds_space Qred lg1 ex_space) (repeat (0, 0) 10) ex_X (transform Qred lg1 ex_space ex_X)
        (inverse Qred lg1 pw1 ex_space (transform Qred lg1 ex_space ex_X)) = 0%Z.
+Proof. vm_compute. repeat split; reflexivity. Qed.
+
+(* a switch sequence as the optimizer performs it: by type, one dimension through the Dimension API, then normalize_dimensions *)
+Example C09_switch_example :
+  let sp' := run_switches ex_space [SwByType 2 TrLabel; SwDim 5 TrOnehot; SwAll TrNormalize; SwDim 7 TrIdentity] in
+  map tr_of sp' = [TrNormalize; TrNormalize; TrNormalize; TrNormalize; TrNormalize; TrNormalize; TrNormalize; TrIdentity; TrNormalize; TrNormalize]
+  /\ wf_space sp' = true /\ tdims sp' = 10%nat
+  /\ forall2b (forall2b Qeq_bool) (inverse Qred lg1 pw1 sp' (transform Qred lg1 sp' ex_X)) ex_X = true.
 Proof. vm_compute. repeat split; reflexivity. Qed.
